@@ -1,14 +1,20 @@
 (* C10 - Outcomes do not depend on ballot order, candidate names or hash seed.
    Property theorems only.  Models: Model/GetNBest.v, Prelude/GDict.v (additive converters);
-   proofs: Proofs/Order_proofs.v, Proofs/Convert_proofs.v.
+   Model/QuotaDistributor.v, Model/STV.v; proofs: Proofs/Order_proofs.v, Proofs/Convert_proofs.v,
+   Proofs/HAPerm_proofs.v, Proofs/HARename_proofs.v, Proofs/QDOrder_proofs.v, Proofs/STVOrder_proofs.v.
 
    The models are structural: they use equality on candidates only (never an order on names, never
    a hash), so "identical under every interpreter hash seed" has no counterpart to prove on the
    model side - where the implementation iterates a set, the check sweeps PYTHONHASHSEED. *)
 From Coq Require Import ZArith QArith List Bool Permutation Arith.
 From VL Require Import Prelude.Sx Prelude.PyDict Prelude.GDict Model.GetNBest Model.HighestAverages Model.Condorcet Model.Convert
+<<<<<<< HEAD
      Proofs.GetNBest_proofs Proofs.QOrd Proofs.Order_proofs Proofs.Convert_proofs Proofs.HA_proofs Proofs.Divisor_proofs Proofs.HAPerm_proofs Proofs.HARename_proofs
      Proofs.Condorcet_proofs Proofs.CopelandMono_proofs Proofs.Schulze_proofs Proofs.GnbSim_proofs Proofs.CondorcetOrder_proofs.
+=======
+     Proofs.GetNBest_proofs Proofs.QOrd Proofs.Order_proofs Proofs.Convert_proofs Proofs.HA_proofs Proofs.Divisor_proofs Proofs.HAPerm_proofs Proofs.HARename_proofs.
+From VL Require Import Model.Quota Model.QuotaDistributor Proofs.QDOrder_proofs Model.STV Proofs.STVOrder_proofs.
+>>>>>>> w2-c10b
 Import ListNotations.
 Close Scope Q_scope.
 Close Scope Z_scope.
@@ -189,6 +195,91 @@ Example C10_example :
   get_n_best Qle_bool [(3%positive, 14#4); (1%positive, 5#1); (2%positive, 7#2)]%Q 2 = [Cand 1%positive; TieR [3%positive; 2%positive]].
 Proof. vm_compute. split; reflexivity. Qed.
 
+(* ---- the quota family (QuotaDistributor.evaluate with its recursive cap branch and _subtract_overaward, and
+   LargestRemainder.evaluate): whatever the insertion order of the votes, of the previous gains and of the caps, the
+   two evaluations end alike ([qd_obs] / [lr_obs]) - the same error, or two result dictionaries in which every
+   candidate has the same seats ([kdget]; the candidate-keyed entries are permutations of each other, distinct
+   keys) and the tie keys correspond one to one with the same members (as sets) and the same seats.
+   [quota_ext]: the quota function does not distinguish equal rationals (every library quota: C10_quota_fn_ext). *)
+Theorem C10_quota_distributor_order : forall (quota : Q -> Z -> Q) (accept_equal : bool) (pol : policy)
+    (votes votes' : list (C * Q)) (n : Z) (prev prev' caps caps' : list (C * Z)),
+  quota_ext quota -> NoDup (map fst votes) -> Permutation votes votes' ->
+  NoDup (map fst prev) -> Permutation prev prev' -> (forall c, dget caps' c = dget caps c) ->
+  qd_obs (qd_evaluate quota accept_equal pol votes n prev caps) (qd_evaluate quota accept_equal pol votes' n prev' caps').
+Proof.
+  intros quota ae pol votes votes' n prev prev' caps caps' Hq Hv Hvp Hp Hpp Hc.
+  exact (qd_rel_obs _ _ (qd_evaluate_perm quota ae pol Hq votes votes' n prev prev' caps caps' Hv Hvp Hp Hpp Hc)).
+Qed.
+
+Theorem C10_largest_remainder_order : forall (quota : Q -> Z -> Q) (accept_equal : bool) (pol : policy)
+    (votes votes' : list (C * Q)) (n : Z) (prev prev' caps caps' : list (C * Z)),
+  quota_ext quota -> NoDup (map fst votes) -> Permutation votes votes' ->
+  NoDup (map fst prev) -> Permutation prev prev' -> (forall c, dget caps' c = dget caps c) ->
+  lr_obs (lr_evaluate quota accept_equal pol votes n prev caps) (lr_evaluate quota accept_equal pol votes' n prev' caps').
+Proof.
+  intros quota ae pol votes votes' n prev prev' caps caps' Hq Hv Hvp Hp Hpp Hc.
+  exact (lr_rel_obs _ _ (lr_evaluate_perm quota ae pol Hq votes votes' n prev prev' caps caps' Hv Hvp Hp Hpp Hc)).
+Qed.
+
+Theorem C10_quota_fn_ext : forall qs, quota_ext (quota_fn qs).
+Proof. exact quota_fn_ext. Qed.
+
+(* non-vacuity: the over-award subtraction ends in a tie key, the remainder stage in a tie; the orders differ *)
+Example C10_quota_example :
+  qd_evaluate (quota_fn (QNamed 7)) true PSubtract [(1%positive, 30#1); (2%positive, 30#1); (3%positive, 7#1)]%Q 3 [] []
+    = QD_ok [(K 1%positive, 1%Z); (K 2%positive, 1%Z); (KT [1%positive; 2%positive], 1%Z)] /\
+  qd_evaluate (quota_fn (QNamed 7)) true PSubtract [(3%positive, 7#1); (2%positive, 30#1); (1%positive, 30#1)]%Q 3 [] []
+    = QD_ok [(K 2%positive, 1%Z); (K 1%positive, 1%Z); (KT [2%positive; 1%positive], 1%Z)] /\
+  lr_evaluate (quota_fn (QNamed 1)) true PSubtract [(1%positive, 30#1); (2%positive, 20#1); (3%positive, 7#1); (4%positive, 7#1)]%Q 4 [] []
+    = LR_ok [(K 1%positive, 2%Z); (K 2%positive, 1%Z); (KT [3%positive; 4%positive], 1%Z)] /\
+  lr_evaluate (quota_fn (QNamed 1)) true PSubtract [(4%positive, 7#1); (3%positive, 7#1); (2%positive, 20#1); (1%positive, 30#1)]%Q 4 [] []
+    = LR_ok [(K 2%positive, 1%Z); (K 1%positive, 2%Z); (KT [4%positive; 3%positive], 1%Z)].
+Proof. vm_compute. repeat split; reflexivity. Qed.
+
+(* ---- the transferable-vote count (STV with Gregory transfers, TransferableVoteDistributor / Selector: quota election,
+   over-count correction, surplus transfer, elimination by get_n_best, the elect-all-remaining shortcut, the fixpoint
+   stop): presenting the ballots (and the previous gains) in another order gives the same stop reason, the same seats
+   as a dictionary, and count by count the same totals and the same elected as dictionaries (only their order differs).
+   [ballots_distinct]: the profile is a dictionary keyed by ballots - no two keys are equal as Python compares them
+   (shared ranks as sets). *)
+Theorem C10_stv_order : forall (cf : cfg) (votes votes' : list (ballot * Q)) (n : Z) (prev prev' caps : list (C * Z)),
+  ballots_distinct votes -> Permutation votes votes' -> NoDup (map fst prev) -> Permutation prev prev' ->
+  let t := stv cf votes n prev caps in
+  let t' := stv cf votes' n prev' caps in
+  t_stop t = t_stop t' /\
+  (forall c, dget (t_seats t) c = dget (t_seats t') c) /\
+  Permutation (t_seats t) (t_seats t') /\ NoDup (map fst (t_seats t)) /\
+  Forall2 (fun x y => Permutation (fst x) (fst y) /\ Permutation (snd x) (snd y)) (t_counts t) (t_counts t').
+Proof.
+  intros cf votes votes' n prev prev' caps Hd Hp Hn Hpp t t'.
+  destruct (stv_perm cf votes votes' n prev prev' caps Hd Hp Hn Hpp) as (H1 & H2 & H3 & H4).
+  split; [exact H4|]. split; [intros c; apply dget_perm; assumption|]. split; [exact H3|]. split; [exact H2|exact H1].
+Qed.
+
+Definition C10_stv_cf : cfg :=
+  Build_cfg (Some (fun v s => Qred (inject_Z (Qround.Qfloor (v / inject_Z (s + 1))) + 1))%Q) true false (-1)%Z.
+Definition C10_stv_votes : list (ballot * Q) :=
+  [([IP 1; IP 2; IP 3]%positive, 4#1); ([IP 2; IP 1]%positive, 7#2); ([IS [3;4]; IP 1]%positive, 2#1);
+   ([IP 4; IS [1;2]]%positive, 2#1); ([IP 3]%positive, 1#1)]%Q.
+
+(* non-vacuity: a profile with shared ranks satisfies the hypothesis; the two runs list the piles in different orders *)
+Example C10_stv_example :
+  ballots_distinct C10_stv_votes /\
+  let caps := [(1%positive, 1%Z); (2%positive, 1%Z); (3%positive, 1%Z); (4%positive, 1%Z)] in
+  let t := stv C10_stv_cf C10_stv_votes 2 [] caps in
+  let t' := stv C10_stv_cf (rev C10_stv_votes) 2 [] caps in
+  t_seats t = [(1%positive, 1%Z); (2%positive, 1%Z)] /\ t_seats t' = t_seats t /\ t_stop t = None /\
+  option_map fst (hd_error (t_counts t)) = Some [(Some 1%positive, 5#1); (Some 2%positive, 7#2); (Some 4%positive, 3#1); (None, 1#1)]%Q /\
+  option_map fst (hd_error (t_counts t')) = Some [(Some 4%positive, 3#1); (Some 2%positive, 7#2); (Some 1%positive, 5#1); (None, 1#1)]%Q.
+Proof.
+  split.
+  - intros b b' Hb Hb' E. simpl in Hb, Hb'.
+    repeat (destruct Hb as [<-|Hb];
+      [repeat (destruct Hb' as [<-|Hb']; [first [reflexivity | (vm_compute in E; discriminate E)]|]); destruct Hb'|]).
+    destruct Hb.
+  - vm_compute. repeat split; reflexivity.
+Qed.
+
 Print Assumptions C10_count_characterisation.
 Print Assumptions C10_order.
 Print Assumptions C10_symmetric.
@@ -196,6 +287,7 @@ Print Assumptions C10_rename.
 Print Assumptions C10_ballot_order.
 Print Assumptions C10_highest_averages_order.
 Print Assumptions C10_highest_averages_rename.
+<<<<<<< HEAD
 Print Assumptions C10_condorcet_tied_members.
 Print Assumptions C10_condorcet_unique_position.
 Print Assumptions C10_condorcet_pget_order.
@@ -211,3 +303,9 @@ Print Assumptions C10_condorcet_smith_order.
 Print Assumptions C10_condorcet_schwartz_order_refuted.
 Print Assumptions C10_condorcet_ranked_pairs_order.
 Print Assumptions C10_condorcet_ranked_pairs_order_refuted.
+=======
+Print Assumptions C10_quota_distributor_order.
+Print Assumptions C10_largest_remainder_order.
+Print Assumptions C10_quota_fn_ext.
+Print Assumptions C10_stv_order.
+>>>>>>> w2-c10b
